@@ -172,6 +172,117 @@ Proof. intros H. unfold chent. rewrite H. reflexivity. Qed.
 
 Ltac lp_simpl := rewrite ?live_poll_unfold; unfold poll_active; cbn [ppc pid sending_ents].
 
+Lemma flat_map_nil {A B} (f : A -> list B) l : (forall x, In x l -> f x = []) -> flat_map f l = [].
+Proof.
+  induction l as [|x l IH]; intros H; cbn; [reflexivity|].
+  rewrite H by (left; reflexivity). apply IH. intros y Hy. apply H. right; exact Hy.
+Qed.
+
+Lemma cache_in_dec (b : batch) c : (forall e, In e b -> e_cache e <> c) \/ (exists e, In e b /\ e_cache e = c).
+Proof.
+  induction b as [|e b IH]; [left; intros e []|].
+  destruct (Nat.eq_dec (e_cache e) c) as [E|E]; [right; exists e; split; [left; reflexivity|exact E]|].
+  destruct IH as [IH|(e' & Hin & E')]; [left|right; exists e'; split; [right; exact Hin|exact E']].
+  intros e' [<-|Hin]; auto.
+Qed.
+
+Lemma InvG_recv_batch s p pl b :
+  Inv1 s -> Inv2 s -> Inv4 s -> InvG s -> nth_error (polls s) p = Some pl ->
+  ppc pl = LRecv \/ ppc pl = LWait -> nth_error (chans s) p = Some (VBatch b) ->
+  let s' := set_poll (set_chans (set_delivered (set_caches s (fst (deliver (pid pl) b (caches s) (delivered s))))
+                                          (snd (deliver (pid pl) b (caches s) (delivered s))))
+                           (upd p VEmpty (chans s)))
+                p (pid pl) (LDone (RBatch b)) in
+  Inv4 s' -> InvG s'.
+Proof.
+  intros HJ HD HO HG Hp Hpc Hb s' HO'.
+  assert (Hlt : p < length (polls s)) by (eapply nth_error_lt; eauto).
+  assert (Hpa : poll_active pl = true) by (unfold poll_active; destruct Hpc as [-> | ->]; reflexivity).
+  assert (Hfree : free s p) by (eapply free_of_nonempty; eauto; discriminate).
+  pose proof (deliver_same (pid pl) b (caches s) (delivered s)) as Hsame.
+  pose proof (t_chan s HD _ _ _ Hp Hb) as [Hb1 Hb2].
+  assert (Hblive : forall e, In e b -> hw_ok (caches s) e) by (intros; eapply o_chan; eauto).
+  destruct (deliver_spec (pid pl) b (caches s) (delivered s) (o_hw s HO) Hb1 Hb2 Hblive) as [_ Hsame2].
+  assert (Hact : forall r, active_at s' r = if Nat.eqb r p then false else active_at s r).
+  { intros r. rewrite (active_at_set s s' p pl (LDone (RBatch b)) r Hp eq_refl). reflexivity. }
+  assert (Hactw : forall w wk sb, nth_error (works s) w = Some wk -> wsub wk = Some sb ->
+            active_at s' (sresp sb) = active_at s (sresp sb)).
+  { intros w wk sb Hw Hs. rewrite Hact. destruct (Nat.eqb (sresp sb) p) eqn:E; [|reflexivity].
+    apply Nat.eqb_eq in E. destruct Hfree as [_ Hf]. elim (Hf _ _ _ Hw Hs E). }
+  assert (HLW : forall c, LWc s' c = LWc s c).
+  { intros c. apply LWc_same; [reflexivity|]. intros w wk Hw. exists wk. split; [exact Hw|].
+    apply live_work_eq. intros sb Hs. eapply Hactw; eauto. }
+  assert (HLP : forall c, exists R1 R2, LPc s c = R1 ++ ents c b ++ R2 /\ LPc s' c = R1 ++ [] ++ R2).
+  { intros c.
+    destruct (LPc_change s s' c p pl {| pid := pid pl; ppc := LDone (RBatch b) |} Hp eq_refl) as (R1 & R2 & E1 & E2).
+    { intros q ql Hne Hq. rewrite !live_poll_unfold. unfold s'. sproj. rewrite chent_same_upd_other by auto. reflexivity. }
+    exists R1, R2. split.
+    - rewrite E1. rewrite live_poll_unfold, Hpa, (chent_at _ c p _ Hb). cbn [cval_ents].
+      destruct Hpc as [-> | ->]; cbn [sending_ents]; rewrite app_nil_r; reflexivity.
+    - rewrite E2. reflexivity. }
+  assert (Hdl : forall c, dmsgs c (delivered s') = dmsgs c (delivered s) ++ ents c b).
+  { intros c. unfold s'. sproj. rewrite deliver_log, dmsgs_app, dmsgs_pairs. reflexivity. }
+  assert (Hperm : forall c cb, nth_error (caches s') c = Some cb ->
+             Permutation (ctaken cb) (dmsgs c (delivered s') ++ live s' c)).
+  { intros c cb Hcb. unfold s' in Hcb. sproj.
+    destruct (same_but_cdel_back _ _ _ _ Hsame Hcb) as (ca & n & Hca & ->). cbn [ctaken set_cdel].
+    pose proof (g_perm s HG _ _ Hca) as P. destruct (HLP c) as (R1 & R2 & E1 & E2).
+    rewrite Hdl, !live_split, E2, HLW. rewrite live_split, E1 in P.
+    apply perm_deliver. exact P. }
+  constructor.
+  - intros w wk sb Hw Hs. change (nth_error (works s) w = Some wk) in Hw.
+    rewrite (Hactw _ _ _ Hw Hs). eapply g_held; eauto.
+  - intros q ql b0 Hq Hb0. unfold s' in Hq, Hb0. sproj. upd_cases Hb0; [discriminate|].
+    rewrite nth_error_upd_neq in Hq by auto. eapply g_chan; eauto.
+  - intros c cb Hcb. pose proof (Hperm _ _ Hcb) as P.
+    unfold s' in Hcb. sproj.
+    destruct (same_but_cdel_back _ _ _ _ Hsame Hcb) as (ca & n & Hca & Ecb).
+    destruct (cache_in_dec b c) as [Hnone|(e & Hin & Ec)].
+    + rewrite Hsame2 in Hcb by exact Hnone. rewrite Hca in Hcb. injection Hcb as <-.
+      rewrite Hdl, ents_nil_other by exact Hnone. rewrite app_nil_r. eapply g_eq; eauto.
+    + (* the batch has an entry for this cache: nothing else is on its way for it *)
+      assert (Hown : forall id' e', ent_ok (caches s) id' e' -> e_cache e' = c -> id' = pid pl).
+      { intros id' e' (ca1 & _ & _ & Hc1 & Ho1 & _) Ec1.
+        eapply Forall_forall in Hb1; [|exact Hin]. destruct Hb1 as (ca2 & _ & _ & Hc2 & Ho2 & _).
+        rewrite Ec1 in Hc1. rewrite Ec in Hc2. rewrite Hc1 in Hc2. inversion Hc2; subst ca2.
+        rewrite Ho1 in Ho2. inversion Ho2. reflexivity. }
+      assert (Hlive0 : live s' c = []).
+      { rewrite live_split. replace (LPc s' c) with (@nil Z); [replace (LWc s' c) with (@nil Z); [reflexivity|]|].
+        - symmetry. apply flat_map_nil. intros wk Hwk. apply In_nth_error in Hwk. destruct Hwk as (w & Hw).
+          change (nth_error (works s) w = Some wk) in Hw.
+          unfold live_work. destruct (wsub wk) as [sb|] eqn:Hs; [|reflexivity].
+          rewrite (Hactw _ _ _ Hw Hs). destruct (active_at s (sresp sb)) eqn:Ha; [|reflexivity].
+          apply ents_nil_other. intros e' Hin' Ec'.
+          pose proof (t_wsub s HD _ _ _ Hw Hs) as (_ & Hq1 & _). eapply Forall_forall in Hq1; [|exact Hin'].
+          pose proof (Hown _ _ Hq1 Ec') as Hid.
+          destruct (i_held s HJ _ _ _ Hw Hs) as (plr & A & B & C & D & E).
+          assert (sresp sb = p).
+          { eapply (i_uniq s HJ (sresp sb) p); eauto; [congruence|].
+            unfold active_at in Ha. rewrite A in Ha. exact Ha. }
+          destruct Hfree as [_ Hf]. eapply Hf; eauto.
+        - symmetry. apply flat_mapi_nil. intros q ql Hq. cbn [Nat.add].
+          unfold s' in Hq. sproj. rewrite live_poll_unfold. upd_cases Hq; [reflexivity|].
+          destruct (poll_active ql) eqn:Ha; [|reflexivity].
+          unfold s'. sproj. rewrite chent_same_upd_other by auto.
+          replace (chent (chans s) c q) with (@nil Z); [replace (sending_ents c (ppc ql)) with (@nil Z); [reflexivity|]|].
+          + symmetry. destruct (ppc ql) as [| | |sb| | | |r] eqn:Epc; try reflexivity. cbn.
+            apply ents_nil_other. intros e' Hin' Ec'.
+            pose proof (t_psub s HD _ _ _ Hq Epc) as (_ & Hq1 & _). eapply Forall_forall in Hq1; [|exact Hin'].
+            pose proof (Hown _ _ Hq1 Ec') as Hid.
+            pose proof (i_pc s HJ _ _ Hq) as Hreq. rewrite Epc in Hreq. cbn in Hreq. destruct Hreq as (_ & Hsid & _).
+            apply Heq. symmetry. eapply (i_uniq s HJ q p); eauto. congruence.
+          + symmetry. unfold chent. destruct (nth_error (chans s) q) as [[| |b']|] eqn:Eq; try reflexivity. cbn.
+            apply ents_nil_other. intros e' Hin' Ec'.
+            pose proof (t_chan s HD _ _ _ Hq Eq) as [Hq1 _]. eapply Forall_forall in Hq1; [|exact Hin'].
+            pose proof (Hown _ _ Hq1 Ec') as Hid.
+            apply Heq. symmetry. eapply (i_uniq s HJ q p); eauto. }
+      rewrite Hlive0, app_nil_r in P.
+      destruct (o_hw s' HO' c cb) as [Hle Hsub]; [unfold s'; sproj; exact Hcb|].
+      apply Subseq_same_length; [exact Hsub|].
+      rewrite <- (Permutation_length P). rewrite firstn_length. lia.
+  - exact Hperm.
+Qed.
+
 Lemma InvG_poll_step s p pl t s' :
   InvAll s -> Inv5 s -> InvG s -> nth_error (polls s) p = Some pl -> poll_rel s p pl t s' -> tag_ok s t ->
   InvG s'.
@@ -185,30 +296,30 @@ Proof.
     rewrite H in Hreq. cbn in Hreq.
     eapply (InvG_poll_quiet s _ p pl LPopSig (chans s) (works s) HG Hp); [reflexivity|reflexivity|reflexivity|reflexivity|reflexivity|..].
     + left; reflexivity.
-    + intros c q _; reflexivity.
-    + intros c. lp_simpl. rewrite H. reflexivity.
+    + intros cx q _; reflexivity.
+    + intros cx. lp_simpl; rewrite H; cbn [sending_ents]. reflexivity.
     + left. unfold poll_active. rewrite H. reflexivity.
     + intros q b Hq. split; auto.
   - (* popold_some *)
     rewrite H in Hreq. cbn in Hreq.
     eapply (InvG_poll_quiet s _ p pl LPopSig (upd r VNil (chans s)) (works s) HG Hp); [reflexivity|reflexivity|reflexivity|reflexivity|reflexivity|..].
     + left; reflexivity.
-    + intros c q _. eapply chent_upd_nil; eauto.
-    + intros c. lp_simpl. rewrite H. sproj. f_equal. eapply chent_upd_nil; eauto.
+    + intros cx q _. eapply chent_upd_nil; eauto.
+    + intros cx. lp_simpl; rewrite H; cbn [sending_ents]. sproj. f_equal. eapply chent_upd_nil; eauto.
     + left. unfold poll_active. rewrite H. reflexivity.
     + intros q b Hq. upd_cases Hq; [discriminate|]. split; auto.
   - (* popsig *)
     eapply (InvG_poll_quiet s _ p pl LSend (chans s) (works s) HG Hp); [reflexivity|reflexivity|reflexivity|reflexivity|reflexivity|..].
     + left; reflexivity.
-    + intros c q _; reflexivity.
-    + intros c. lp_simpl. rewrite H. reflexivity.
+    + intros cx q _; reflexivity.
+    + intros cx. lp_simpl; rewrite H; cbn [sending_ents]. reflexivity.
     + left. unfold poll_active. rewrite H. reflexivity.
     + intros q b Hq. split; auto.
   - (* send *)
     eapply (InvG_poll_quiet s _ p pl (LSending (sub0 (pid pl) p)) (chans s) (works s) HG Hp); [reflexivity|reflexivity|reflexivity|reflexivity|reflexivity|..].
     + left; reflexivity.
-    + intros c q _; reflexivity.
-    + intros c. lp_simpl. rewrite H. reflexivity.
+    + intros cx q _; reflexivity.
+    + intros cx. lp_simpl; rewrite H; cbn [sending_ents]. reflexivity.
     + left. unfold poll_active. rewrite H. reflexivity.
     + intros q b Hq. split; auto.
   - (* sending *)
@@ -218,12 +329,12 @@ Proof.
     assert (Hact : forall pc', (forall r, pc' <> LDone r) ->
               poll_active {| pid := pid pl; ppc := pc' |} = poll_active pl).
     { intros pc' Hn. unfold poll_active. rewrite H. cbn. destruct pc'; try reflexivity. elim (Hn r); reflexivity. }
-    inversion H0; subst.
+    inversion H0; subst o; subst s1.
     { (* load *)
     eapply (InvG_poll_quiet s _ p pl _ (chans s) (works s) HG Hp); [reflexivity|reflexivity|reflexivity|reflexivity|reflexivity|..].
     + left; reflexivity.
-    + intros c q _; reflexivity.
-    + intros c. lp_simpl. rewrite H. cbn. destruct Hshape as (E & _). rewrite (E H1). reflexivity.
+    + intros cx q _; reflexivity.
+    + intros cx. lp_simpl; rewrite H; cbn [sending_ents]. cbn. destruct Hshape as (E & _). rewrite (E H1). reflexivity.
     + left. apply Hact. discriminate.
     + intros q b Hq. split; auto.
     }
@@ -233,18 +344,18 @@ Proof.
       { eapply (Hsh3 VNil); eauto. sproj. apply nth_error_upd_eq. eapply nth_error_lt; eauto. }
     eapply (InvG_poll_quiet s _ p pl LRecv (upd p VNil (chans s)) (works s) HG Hp); [reflexivity|reflexivity|reflexivity|reflexivity|reflexivity|..].
     + left; reflexivity.
-    + intros c q Hne. apply chent_same_upd_other; auto.
-    + intros c. lp_simpl. rewrite H. sproj. rewrite Hres.
-      rewrite (chent_at (upd p VNil (chans s)) c p VNil) by (apply nth_error_upd_eq; eapply nth_error_lt; eauto).
-      rewrite (chent_at (chans s) c p VEmpty) by exact Hc. reflexivity.
+    + intros cx q Hne. apply chent_same_upd_other; auto.
+    + intros cx. lp_simpl; rewrite H; cbn [sending_ents]. sproj. rewrite Hres.
+      rewrite (chent_at (upd p VNil (chans s)) cx p VNil) by (apply nth_error_upd_eq; eapply nth_error_lt; eauto).
+      rewrite (chent_at (chans s) cx p VEmpty) by exact Hc. reflexivity.
     + left. apply Hact. discriminate.
-    + intros q b Hq. upd_cases Hq; [discriminate|]. split; auto. intros; congruence.
+    + intros q b Hq. upd_cases Hq; [discriminate|]. split; auto; intros; congruence.
     }
     { (* false *)
     eapply (InvG_poll_quiet s _ p pl LUpsert (chans s) (works s) HG Hp); [reflexivity|reflexivity|reflexivity|reflexivity|reflexivity|..].
     + left; reflexivity.
-    + intros c q _; reflexivity.
-    + intros c. lp_simpl. rewrite H. cbn. rewrite H4. reflexivity.
+    + intros cx q _; reflexivity.
+    + intros cx. lp_simpl; rewrite H; cbn [sending_ents]. cbn. rewrite H4. reflexivity.
     + left. apply Hact. discriminate.
     + intros q b Hq. split; auto.
     }
@@ -252,27 +363,27 @@ Proof.
       rewrite Hrs in *.
     eapply (InvG_poll_quiet s _ p pl LRecv (upd p (VBatch (sres sb)) (chans s)) _ HG Hp); [reflexivity|reflexivity|reflexivity|reflexivity|reflexivity|..].
     + right. eexists. reflexivity.
-    + intros c q Hne. apply chent_same_upd_other; auto.
-    + intros c. lp_simpl. rewrite H. sproj.
-      rewrite (chent_at (upd p (VBatch (sres sb)) (chans s)) c p (VBatch (sres sb)))
+    + intros cx q Hne. apply chent_same_upd_other; auto.
+    + intros cx. lp_simpl; rewrite H; cbn [sending_ents]. sproj.
+      rewrite (chent_at (upd p (VBatch (sres sb)) (chans s)) cx p (VBatch (sres sb)))
         by (apply nth_error_upd_eq; eapply nth_error_lt; eauto).
-      rewrite (chent_at (chans s) c p VEmpty) by exact Hc. cbn. rewrite app_nil_r. reflexivity.
+      rewrite (chent_at (chans s) cx p VEmpty) by exact Hc. cbn. rewrite app_nil_r. reflexivity.
     + left. apply Hact. discriminate.
-    + intros q b Hq. upd_cases Hq; [split; [congruence|reflexivity]|]. split; auto. intros; congruence.
+    + intros q b Hq. upd_cases Hq; [split; [congruence|reflexivity]|]. split; auto; intros; congruence.
     }
     { (* skip *)
     eapply (InvG_poll_quiet s _ p pl _ (chans s) (works s) HG Hp); [reflexivity|reflexivity|reflexivity|reflexivity|reflexivity|..].
     + left; reflexivity.
-    + intros c q _; reflexivity.
-    + intros c. lp_simpl. rewrite H. reflexivity.
+    + intros cx q _; reflexivity.
+    + intros cx. lp_simpl; rewrite H; cbn [sending_ents]. reflexivity.
     + left. apply Hact. discriminate.
     + intros q b Hq. split; auto.
     }
     { (* visit *)
     eapply (InvG_poll_quiet s _ p pl _ (chans s) (works s) HG Hp); [reflexivity|reflexivity|reflexivity|reflexivity|reflexivity|..].
     + left; reflexivity.
-    + intros c q _; reflexivity.
-    + intros c. lp_simpl. rewrite H. reflexivity.
+    + intros cx q _; reflexivity.
+    + intros cx. lp_simpl; rewrite H; cbn [sending_ents]. reflexivity.
     + left. apply Hact. discriminate.
     + intros q b Hq. split; auto.
     }
@@ -308,25 +419,25 @@ Proof.
     assert (Hfree : free s p) by (eapply free_of_nonempty; eauto; discriminate).
     eapply (InvG_poll_quiet s _ p pl (LDone RNil) (upd p VEmpty (chans s)) (works s) HG Hp); [reflexivity|reflexivity|reflexivity|reflexivity|reflexivity|..].
     + left; reflexivity.
-    + intros c q Hne. apply chent_same_upd_other; auto.
-    + intros c. lp_simpl. rewrite (chent_at (chans s) c p VNil) by exact H0.
+    + intros cx q Hne. apply chent_same_upd_other; auto.
+    + intros cx. lp_simpl. rewrite (chent_at (chans s) cx p VNil) by exact H0.
       destruct H as [-> | ->]; reflexivity.
     + right. apply Hfree.
-    + intros q b Hq. upd_cases Hq; [discriminate|]. split; auto. intros; congruence.
+    + intros q b Hq. upd_cases Hq; [discriminate|]. split; auto; intros; congruence.
   - (* recv_batch *)
-    RECVBATCH
+    eapply (InvG_recv_batch s p pl b); eauto.
   - (* upsert_none *)
     eapply (InvG_poll_quiet s _ p pl LWait (chans s) (works s) HG Hp); [reflexivity|reflexivity|reflexivity|reflexivity|reflexivity|..].
     + left; reflexivity.
-    + intros c q _; reflexivity.
-    + intros c. lp_simpl. rewrite H. reflexivity.
+    + intros cx q _; reflexivity.
+    + intros cx. lp_simpl; rewrite H; cbn [sending_ents]. reflexivity.
     + left. unfold poll_active. rewrite H. reflexivity.
     + intros q b Hq. split; auto.
   - (* upsert_some *)
     eapply (InvG_poll_quiet s _ p pl LWait (upd r VNil (chans s)) (works s) HG Hp); [reflexivity|reflexivity|reflexivity|reflexivity|reflexivity|..].
     + left; reflexivity.
-    + intros c q _. eapply chent_upd_nil; eauto.
-    + intros c. lp_simpl. rewrite H. sproj. f_equal. eapply chent_upd_nil; eauto.
+    + intros cx q _. eapply chent_upd_nil; eauto.
+    + intros cx. lp_simpl; rewrite H; cbn [sending_ents]. sproj. f_equal. eapply chent_upd_nil; eauto.
     + left. unfold poll_active. rewrite H. reflexivity.
     + intros q b Hq. upd_cases Hq; [discriminate|]. split; auto.
   - (* timeout *)
@@ -334,8 +445,354 @@ Proof.
     destruct (i_reg s HJ _ _ Hreg) as (pl1 & A & B & C & D & E).
     eapply (InvG_poll_quiet s _ p pl (LDone RTimeout) (chans s) _ HG Hp); [reflexivity|reflexivity|reflexivity|reflexivity|reflexivity|..].
     + right. eexists. reflexivity.
-    + intros c q _; reflexivity.
-    + intros c. lp_simpl. rewrite H. rewrite (chent_at (chans s) c p VEmpty) by exact D. reflexivity.
+    + intros cx q _; reflexivity.
+    + intros cx. lp_simpl; rewrite H; cbn [sending_ents]. rewrite (chent_at (chans s) cx p VEmpty) by exact D. reflexivity.
     + right. exact E.
     + intros q b Hq. split; auto. intros ->. congruence.
+Qed.
+
+(* steps of worker w that neither take from a cache nor move a batch *)
+Lemma InvG_work_quiet s s0 w wk f' sbo chs' :
+  InvG s -> nth_error (works s) w = Some wk ->
+  delivered s0 = delivered s -> polls s0 = polls s -> chans s0 = chs' ->
+  works s0 = upd w {| wf := f'; wsub := sbo |} (works s) ->
+  (forall c cb, nth_error (caches s0) c = Some cb ->
+     exists ca, nth_error (caches s) c = Some ca /\ ctaken cb = ctaken ca /\ cdel cb = cdel ca) ->
+  (forall c q, chent chs' c q = chent (chans s) c q) ->
+  (forall c, live_work s0 c {| wf := f'; wsub := sbo |} = live_work s c wk) ->
+  (forall sb, sbo = Some sb -> active_at s (sresp sb) = true) ->
+  (forall q b, nth_error chs' q = Some (VBatch b) -> nth_error (chans s) q = Some (VBatch b)) ->
+  InvG s0.
+Proof.
+  intros [A B C D] Hw Ed Ep Ech Ew Hca Hch Hlw Hsbo Hb.
+  assert (Hact : forall r, active_at s0 r = active_at s r) by (intros r; unfold active_at; rewrite Ep; reflexivity).
+  assert (Hlive : forall c, live s0 c = live s c).
+  { intros c. rewrite !live_split. f_equal.
+    - apply LPc_same; [rewrite Ep; reflexivity|]. intros q ql Hq. rewrite Ep in Hq. exists ql. split; [exact Hq|].
+      rewrite !live_poll_unfold, Ech, Hch. reflexivity.
+    - apply LWc_same; [rewrite Ew, length_upd; reflexivity|]. intros w0 wk0 Hw0. rewrite Ew in Hw0. upd_cases Hw0.
+      + exists wk. split; [exact Hw|apply Hlw].
+      + exists wk0. split; [exact Hw0|]. apply live_work_eq. intros; apply Hact. }
+  constructor.
+  - intros w0 wk0 sb Hw0 Hs. rewrite Hact. rewrite Ew in Hw0. upd_cases Hw0; [cbn in Hs; auto|eauto].
+  - intros q ql b Hq Hqb. rewrite Ep in Hq. rewrite Ech in Hqb. eauto.
+  - intros c cb Hcb. destruct (Hca _ _ Hcb) as (ca & Hc & E1 & E2). rewrite Ed, E1, E2. auto.
+  - intros c cb Hcb. destruct (Hca _ _ Hcb) as (ca & Hc & E1 & E2). rewrite Ed, E1, Hlive. auto.
+Qed.
+
+Lemma live_work_nil s c f sb : sres sb = [] -> live_work s c {| wf := f; wsub := Some sb |} = [].
+Proof. intros E. unfold live_work. cbn. rewrite E. destruct (active_at s (sresp sb)); reflexivity. Qed.
+
+Lemma live_work_nil' s c wk sb : wsub wk = Some sb -> sres sb = [] -> live_work s c wk = [].
+Proof. intros Hs E. unfold live_work. rewrite Hs, E. destruct (active_at s (sresp sb)); reflexivity. Qed.
+
+Lemma live_work_some s c wk sb : wsub wk = Some sb ->
+  live_work s c wk = if active_at s (sresp sb) then ents c (sres sb) else [].
+Proof. intros Hs. unfold live_work. rewrite Hs. reflexivity. Qed.
+
+Lemma upd_same {A} (l : list A) : forall n x, nth_error l n = Some x -> upd n x l = l.
+Proof.
+  induction l as [|y l IH]; intros [|n] x H; cbn in *; try discriminate; [congruence|]. f_equal. auto.
+Qed.
+
+Lemma LWc_congr s1 s2 c : polls s1 = polls s2 -> works s1 = works s2 -> LWc s1 c = LWc s2 c.
+Proof.
+  intros Ep Ew. apply LWc_same; [rewrite Ew; reflexivity|]. intros w wk Hw. rewrite Ew in Hw.
+  exists wk. split; [exact Hw|]. apply live_work_eq. intros sb _. unfold active_at. rewrite Ep. reflexivity.
+Qed.
+
+Lemma LPc_congr s1 s2 c : polls s1 = polls s2 -> chans s1 = chans s2 -> LPc s1 c = LPc s2 c.
+Proof.
+  intros Ep Ec. apply LPc_same; [rewrite Ep; reflexivity|]. intros q ql Hq. rewrite Ep in Hq.
+  exists ql. split; [exact Hq|]. rewrite !live_poll_unfold, Ec. reflexivity.
+Qed.
+
+(* no entry anywhere refers to a cache that does not exist yet *)
+Lemma live_fresh s c : Inv2 s -> length (caches s) <= c -> live s c = [].
+Proof.
+  intros HD Hc.
+  assert (Hent : forall id b, Forall (ent_ok (caches s) id) b -> ents c b = []).
+  { intros id b Hb. apply ents_nil_other. intros e Hin Ee. eapply Forall_forall in Hb; [|exact Hin].
+    destruct Hb as (ca & _ & _ & Hca & _). apply nth_error_lt in Hca. lia. }
+  rewrite live_split. replace (LPc s c) with (@nil Z); [replace (LWc s c) with (@nil Z); [reflexivity|]|].
+  - symmetry. apply flat_map_nil. intros wk Hwk. apply In_nth_error in Hwk. destruct Hwk as (w & Hw).
+    unfold live_work. destruct (wsub wk) as [sb|] eqn:Hs; [|reflexivity].
+    destruct (active_at s (sresp sb)); [|reflexivity].
+    pose proof (t_wsub s HD _ _ _ Hw Hs) as (_ & Hq1 & _). eapply Hent; eauto.
+  - symmetry. apply flat_mapi_nil. intros q ql Hq. cbn [Nat.add]. rewrite live_poll_unfold.
+    destruct (poll_active ql); [|reflexivity].
+    replace (chent (chans s) c q) with (@nil Z); [replace (sending_ents c (ppc ql)) with (@nil Z); [reflexivity|]|].
+    + symmetry. destruct (ppc ql) as [| | |sb| | | |r] eqn:Epc; try reflexivity. cbn.
+      pose proof (t_psub s HD _ _ _ Hq Epc) as (_ & Hq1 & _). eapply Hent; eauto.
+    + symmetry. unfold chent. destruct (nth_error (chans s) q) as [[| |b']|] eqn:Eq; try reflexivity. cbn.
+      pose proof (t_chan s HD _ _ _ Hq Eq) as [Hq1 _]. eapply Hent; eauto.
+Qed.
+
+Lemma InvG_work_step s w wk t s' :
+  InvAll s -> Inv5 s -> InvG s -> nth_error (works s) w = Some wk -> work_rel s w wk t s' -> tag_ok s t ->
+  InvG s'.
+Proof.
+  intros [HJ HD HO] H5 HG Hw Hr Htag.
+  assert (Hlt : w < length (works s)) by (eapply nth_error_lt; eauto).
+  assert (Hcs : forall c cb, nth_error (caches s) c = Some cb ->
+            exists ca, nth_error (caches s) c = Some ca /\ ctaken cb = ctaken ca /\ cdel cb = cdel ca) by eauto.
+  inversion Hr; subst; clear Hr.
+  - (* putback_set *)
+    destruct (s_wsub s H5 _ _ _ Hw H) as (_ & _ & _ & Hpb).
+    eapply (InvG_work_quiet s _ w wk (wf wk) None (chans s) HG Hw); try reflexivity; auto.
+    + intros c. symmetry. eapply live_work_nil'; eauto.
+    + discriminate.
+  - (* putback_nil *)
+    destruct (s_wsub s H5 _ _ _ Hw H) as (_ & _ & _ & Hpb).
+    eapply (InvG_work_quiet s _ w wk (wf wk) None (upd (sresp sb) VNil (chans s)) HG Hw); try reflexivity; auto.
+    + intros c q. eapply chent_upd_nil; eauto.
+    + intros c. symmetry. eapply live_work_nil'; eauto.
+    + discriminate.
+    + intros q b Hq. upd_cases Hq; [discriminate|auto].
+  - (* sub *)
+    pose proof (s_wsub s H5 _ _ _ Hw H) as Hshape.
+    destruct (sub_rel_shape _ _ _ _ Hshape H1) as (Hsh1 & Hsh2 & Hsh3).
+    destruct (i_held s HJ _ _ _ Hw H) as (plr & A & B & C & D & E).
+    pose proof (g_held s HG _ _ _ Hw H) as Hact.
+    inversion H1; subst o; subst s1.
+    { (* load *)
+      eapply (InvG_work_quiet s _ w wk (wf wk) _ (chans s) HG Hw); try reflexivity; auto.
+      - intros c. cbn [live_work wsub]. rewrite (live_work_some s c wk sb H). cbn [sres sresp sb_mk].
+        destruct Hshape as (X & _). rewrite (X H2). reflexivity.
+      - intros sb0 E0. inversion E0; subst. exact Hact. }
+    { (* nil *)
+      assert (Hres : sres sb = []).
+      { eapply (Hsh3 VNil); eauto. sproj. apply nth_error_upd_eq. eapply nth_error_lt; eauto. }
+      eapply (InvG_work_quiet s _ w wk (wf wk) None (upd (sresp sb) VNil (chans s)) HG Hw); try reflexivity; auto.
+      - intros c q. eapply chent_upd_nil; eauto.
+      - intros c. symmetry. eapply live_work_nil'; eauto.
+      - discriminate.
+      - intros q b Hq. upd_cases Hq; [discriminate|auto]. }
+    { (* false *)
+      eapply (InvG_work_quiet s _ w wk (wf wk) _ (chans s) HG Hw); try reflexivity; auto.
+      - intros c. cbn [live_work wsub]. rewrite (live_work_some s c wk sb H). reflexivity.
+      - intros sb0 E0. inversion E0; subst. exact Hact. }
+    { (* batch: the result moves from the worker into the channel of an active poll *)
+      assert (Hpa : poll_active plr = true) by (unfold active_at in Hact; rewrite A in Hact; exact Hact).
+      assert (Hwait : ppc plr = LWait).
+      { destruct C as [C|C]; [exact C|]. unfold poll_active in Hpa. rewrite C in Hpa. discriminate. }
+      set (h := {| wf := WHb (sid sb) (length (sigch s)) HbUpsert; wsub := None |}).
+      match goal with |- InvG ?st => set (s2 := st) end.
+      assert (Ew2 : works s2 = upd w {| wf := wf wk; wsub := None |} (works s) ++ [h]).
+      { unfold s2. sproj. apply upd_snoc. exact Hlt. }
+      assert (Hact2 : forall r, active_at s2 r = active_at s r) by reflexivity.
+      assert (Hlive : forall c, exists R1 R2 W1 W2,
+                 live s c = (R1 ++ [] ++ R2) ++ (W1 ++ ents c (sres sb) ++ W2) /\
+                 live s2 c = (R1 ++ ents c (sres sb) ++ R2) ++ (W1 ++ [] ++ W2)).
+      { intros c.
+        destruct (LPc_change s s2 c (sresp sb) plr plr A) as (R1 & R2 & E1 & E2).
+        { unfold s2. sproj. symmetry. apply upd_same. exact A. }
+        { intros q ql Hne Hq. rewrite !live_poll_unfold. unfold s2. sproj.
+          rewrite chent_same_upd_other by auto. reflexivity. }
+        set (sM := set_works s (upd w {| wf := wf wk; wsub := None |} (works s))).
+        destruct (LWc_change s sM c w wk {| wf := wf wk; wsub := None |} Hw eq_refl) as (W1 & W2 & F1 & F2).
+        { intros q qk Hne Hq. reflexivity. }
+        assert (F3 : LWc s2 c = LWc sM c).
+        { eapply (LWc_snoc sM s2 c (WHb (sid sb) (length (sigch s)) HbUpsert)); [exact Ew2|].
+          intros wk0 _. reflexivity. }
+        exists R1, R2, W1, W2. split.
+        - rewrite live_split, E1, F1. f_equal.
+          + rewrite live_poll_unfold, Hpa, Hwait, (chent_at _ c _ _ D). reflexivity.
+          + rewrite (live_work_some s c wk sb H), Hact. reflexivity.
+        - rewrite live_split, E2, F3, F2. f_equal.
+          rewrite live_poll_unfold, Hpa, Hwait. unfold s2. sproj.
+          rewrite (chent_at _ c (sresp sb) (VBatch (sres sb))) by (apply nth_error_upd_eq; eapply nth_error_lt; eauto).
+          cbn. rewrite app_nil_r. reflexivity. }
+      constructor.
+      - intros w0 wk0 sb0 Hw0 Hs0. rewrite Hact2. rewrite Ew2 in Hw0. snoc_cases Hw0; [|discriminate].
+        upd_cases Hw0; [discriminate|]. eapply g_held; eauto.
+      - intros q ql b Hq Hb. unfold s2 in Hq, Hb. sproj. upd_cases Hb.
+        + rewrite A in Hq. inversion Hq; subst. exact Hpa.
+        + eapply g_chan; eauto.
+      - apply (g_eq s HG).
+      - intros c cb Hcb. destruct (Hlive c) as (R1 & R2 & W1 & W2 & E1 & E2). rewrite E2.
+        apply perm_move. rewrite <- E1. apply (g_perm s HG); auto. }
+    { (* skip *)
+      eapply (InvG_work_quiet s _ w wk (wf wk) _ (chans s) HG Hw); try reflexivity; auto.
+      - intros c. cbn [live_work wsub]. rewrite (live_work_some s c wk sb H). reflexivity.
+      - intros sb0 E0. inversion E0; subst. exact Hact. }
+    { (* visit *)
+      eapply (InvG_work_quiet s _ w wk (wf wk) _ (chans s) HG Hw); try reflexivity; auto.
+      - intros c0. cbn [live_work wsub]. rewrite (live_work_some s c0 wk sb H). reflexivity.
+      - intros sb0 E0. inversion E0; subst. exact Hact. }
+    (* take *)
+    set (sb' := sb_mk sb SVisit (skeys sb) (ssize sb) (take_res sb key c ca)).
+    match goal with |- InvG ?st => set (s2 := st) end.
+    assert (Hact2 : forall r, active_at s2 r = active_at s r) by reflexivity.
+    assert (Hlive : forall c1, exists A0 B0 x, live s c1 = A0 ++ x ++ B0 /\
+               live s2 c1 = A0 ++ (x ++ (if Nat.eqb c c1 then cmsgs ca else [])) ++ B0).
+    { intros c1.
+      destruct (LWc_change s s2 c1 w wk {| wf := wf wk; wsub := Some sb' |} Hw eq_refl) as (W1 & W2 & F1 & F2).
+      { intros q qk Hne Hq. reflexivity. }
+      assert (EP : LPc s2 c1 = LPc s c1) by (apply LPc_congr; reflexivity).
+      exists (LPc s c1 ++ W1), W2, (live_work s c1 wk). split.
+      - rewrite live_split, F1. repeat rewrite <- app_assoc. reflexivity.
+      - rewrite live_split, F2, EP. repeat rewrite <- app_assoc. do 2 f_equal.
+        rewrite (live_work_some s c1 wk sb H), Hact. cbn [live_work wsub]. rewrite Hact2.
+        unfold sb'. cbn [sresp sres sb_mk]. rewrite Hact, ents_take_res. repeat rewrite <- app_assoc. reflexivity. }
+    destruct (g_take s s2 c ca HG HO H3 eq_refl eq_refl Hlive) as [C' D'].
+    constructor.
+    + intros w0 wk0 sb0 Hw0 Hs0. rewrite Hact2. unfold s2 in Hw0. sproj. upd_cases Hw0.
+      * cbn in Hs0. inversion Hs0; subst sb0. exact Hact.
+      * eapply g_held; eauto.
+    + intros q ql b Hq Hb. eapply g_chan; eauto.
+    + exact C'.
+    + exact D'.
+  - (* frame *)
+    eapply (InvG_work_quiet s _ w wk f' None (chans s) HG Hw); try reflexivity; auto.
+    + intros c. unfold live_work. rewrite H. reflexivity.
+    + discriminate.
+  - (* append *)
+    eapply (InvG_work_quiet s _ w wk _ None (chans s) HG Hw); try reflexivity; auto.
+    + intros c0 cb Hcb. sproj. upd_cases Hcb; [|eauto]. exists ca. auto.
+    + intros c0. unfold live_work. rewrite H. reflexivity.
+    + discriminate.
+  - (* resp_none *)
+    eapply (InvG_work_quiet s _ w wk f' None (chans s) HG Hw); try reflexivity; auto.
+    + intros c. unfold live_work. rewrite H. reflexivity.
+    + discriminate.
+  - (* resp_some *)
+    eapply (InvG_work_quiet s _ w wk f' (Some (sub0 id r)) (chans s) HG Hw); try reflexivity; auto.
+    + intros c. rewrite live_work_nil by reflexivity. unfold live_work. rewrite H. reflexivity.
+    + intros sb E. inversion E; subst. exact Htag.
+  - (* ensure *)
+    eapply (InvG_work_quiet s _ w wk _ None (chans s) HG Hw); try reflexivity; auto.
+    + intros c. unfold live_work. rewrite H. reflexivity.
+    + discriminate.
+  - (* store *)
+    match goal with |- InvG ?st => set (s2 := st) end.
+    assert (Hlive : forall c, live s2 c = live s c).
+    { intros c. rewrite !live_split.
+      assert (E1 : LPc s2 c = LPc s c) by (apply LPc_congr; reflexivity). rewrite E1. f_equal.
+      apply LWc_same; [unfold s2; sproj; rewrite length_upd; reflexivity|].
+      intros w0 wk0 Hw0. unfold s2 in Hw0. sproj. upd_cases Hw0.
+      - exists wk. split; [exact Hw|]. unfold live_work. rewrite H. reflexivity.
+      - exists wk0. split; [exact Hw0|reflexivity]. }
+    constructor.
+    + intros w0 wk0 sb0 Hw0 Hs0. unfold s2 in Hw0. sproj. upd_cases Hw0; [discriminate|].
+      change (active_at s (sresp sb0) = true). eapply g_held; eauto.
+    + intros q ql b Hq Hb. eapply g_chan; eauto.
+    + intros c cb Hcb. unfold s2 in Hcb |- *. sproj. snoc_cases Hcb; [eapply g_eq; eauto|]. cbn.
+      apply dmsgs_nil_fresh. intros id0 e Hin Ee. destruct (t_del s HD _ _ Hin) as (ca0 & _ & _ & Hc0 & _).
+      apply nth_error_lt in Hc0. lia.
+    + intros c cb Hcb. rewrite Hlive. unfold s2 in Hcb |- *. sproj. snoc_cases Hcb; [eapply g_perm; eauto|]. cbn.
+      rewrite dmsgs_nil_fresh, live_fresh; auto.
+      intros id0 e Hin Ee. destruct (t_del s HD _ _ Hin) as (ca0 & _ & _ & Hc0 & _).
+      apply nth_error_lt in Hc0. lia.
+  - (* delete *)
+    eapply (InvG_work_quiet s _ w wk _ None (chans s) HG Hw); try reflexivity; auto.
+    + intros c. unfold live_work. rewrite H. reflexivity.
+    + discriminate.
+  - (* hb_upsert *)
+    eapply (InvG_work_quiet s _ w wk _ None (chans s) HG Hw); try reflexivity; auto.
+    + intros c. unfold live_work. rewrite H. reflexivity.
+    + discriminate.
+Qed.
+
+Lemma InvG_step s t s' :
+  InvAll s -> Inv5 s -> InvG s -> step_rel s t s' -> tag_ok s t -> InvG s'.
+Proof.
+  intros HA H5 HG H Htag. inversion H; subst.
+  - (* a new worker *)
+    match goal with |- InvG ?st => set (s2 := st) end.
+    assert (Hlive : forall c, live s2 c = live s c).
+    { intros c. rewrite !live_split.
+      assert (E1 : LPc s2 c = LPc s c) by (apply LPc_congr; reflexivity). rewrite E1. f_equal.
+      eapply (LWc_snoc s s2 c f); [reflexivity|]. intros; reflexivity. }
+    destruct HG as [A B C D]. constructor.
+    + intros w wk sb Hw Hs. unfold s2 in Hw. sproj. snoc_cases Hw; [|discriminate].
+      change (active_at s (sresp sb) = true). eauto.
+    + intros q ql b Hq Hb. eapply B; eauto.
+    + exact C.
+    + intros c ca Hc. rewrite Hlive. apply D; auto.
+  - (* a new poll *)
+    destruct HA as [HJ HD HO].
+    match goal with |- InvG ?st => set (s2 := st) end.
+    pose proof (i_len s HJ) as Hlen.
+    assert (Hact : forall r, r < length (polls s) -> active_at s2 r = active_at s r).
+    { intros r Hr. unfold active_at, s2. sproj. rewrite nth_error_app1 by exact Hr. reflexivity. }
+    assert (Hlive : forall c, live s2 c = live s c).
+    { intros c. rewrite !live_split. f_equal.
+      - unfold LPc, s2. sproj. rewrite flat_mapi_snoc. cbn [Nat.add].
+        rewrite live_poll_unfold. unfold poll_active. cbn [ppc sending_ents].
+        unfold chent. sproj. rewrite <- Hlen, nth_error_snoc_new. cbn. rewrite app_nil_r.
+        apply flat_mapi_eq; [reflexivity|]. intros q ql Hq. exists ql. split; [exact Hq|]. cbn [Nat.add].
+        rewrite !live_poll_unfold. unfold chent. sproj.
+        rewrite nth_error_app1 by (rewrite Hlen; eapply nth_error_lt; eauto). reflexivity.
+      - apply LWc_same; [reflexivity|]. intros w wk Hw. exists wk. split; [exact Hw|].
+        apply live_work_eq. intros sb Hs. apply Hact.
+        change (nth_error (works s) w = Some wk) in Hw.
+        destruct (i_held s HJ _ _ _ Hw Hs) as (plr & A & _). eapply nth_error_lt; eauto. }
+    destruct HG as [A B C D]. constructor.
+    + intros w wk sb Hw Hs. change (nth_error (works s) w = Some wk) in Hw.
+      rewrite Hact; [eauto|]. destruct (i_held s HJ _ _ _ Hw Hs) as (plr & A' & _). eapply nth_error_lt; eauto.
+    + intros q ql b Hq Hb. unfold s2 in Hq, Hb. sproj. snoc_cases Hb; [|discriminate].
+      snoc_cases Hq; [eapply B; eauto|lia].
+    + exact C.
+    + intros c ca Hc. rewrite Hlive. apply D; auto.
+  - eapply InvG_poll_step; eauto.
+  - eapply InvG_work_step; eauto.
+Qed.
+
+Record InvFull (s : state) : Prop := { f_all : InvAll s; f_5 : Inv5 s; f_g : InvG s }.
+
+Lemma InvFull_greach s : greach tag_ok s -> InvFull s.
+Proof.
+  induction 1 as [|s t s' Hr IH Hs Ht].
+  - constructor; [constructor; [apply Inv1_init|apply Inv2_init|apply Inv4_init]|apply Inv5_init|apply InvG_init].
+  - destruct IH as [A B C]. constructor; [eapply InvAll_step; eauto|eapply Inv5_step; eauto|eapply InvG_step; eauto].
+Qed.
+
+Lemma Inv5_reach s : reach s -> Inv5 s.
+Proof. induction 1; [apply Inv5_init|eapply Inv5_step; eauto]. Qed.
+
+(* ---- the simple guard: no poll time-out fires *)
+
+Definition no_stale (s : state) : Prop :=
+  forall p pl, nth_error (polls s) p = Some pl -> ppc pl <> LDone RTimeout.
+
+Lemma work_rel_polls s w wk t s' : work_rel s w wk t s' -> polls s' = polls s.
+Proof.
+  intros H. inversion H; subst; sproj; try reflexivity.
+  destruct (sub_rel_eff _ _ _ _ H2) as (Ep & _). exact Ep.
+Qed.
+
+Lemma no_stale_step s t s' : no_stale s -> step_rel s t s' -> tag_no_timeout t -> no_stale s'.
+Proof.
+  intros HN H Ht. inversion H; subst.
+  - exact HN.
+  - intros p pl Hp. sproj. snoc_cases Hp; [eauto|discriminate].
+  - assert (Hgen : forall pc' ps, pc' <> LDone RTimeout -> ps = polls s ->
+              forall s0, polls s0 = upd p {| pid := pid pl; ppc := pc' |} ps -> no_stale s0).
+    { intros pc' ps Hne -> s0 E q ql Hq. rewrite E in Hq. upd_cases Hq; [exact Hne|eauto]. }
+    inversion H1; subst; try solve [eapply Hgen; [|reflexivity|reflexivity]; discriminate].
+    + destruct (sub_rel_eff _ _ _ _ H3) as (Ep & _).
+      eapply (Hgen _ (polls s1)); [|exact Ep|reflexivity]. destruct o as [sb'|[|]]; discriminate.
+    + destruct Ht.
+  - intros p pl Hp. rewrite (work_rel_polls _ _ _ _ _ H1) in Hp. eauto.
+Qed.
+
+Lemma no_stale_tag_ok s t s' : Inv1 s -> no_stale s -> step_rel s t s' -> tag_no_timeout t -> tag_ok s t.
+Proof.
+  intros HJ HN H Ht. destruct t as [p|r|]; [destruct Ht| |exact I].
+  inversion H; subst.
+  - inversion H1.
+  - inversion H1; subst.
+    destruct (i_reg s HJ _ _ H5) as (pl & A & B & C & D & E).
+    cbn. unfold active_at. rewrite A. unfold poll_active.
+    destruct C as [-> | C]; [reflexivity|]. elim (HN _ _ A C).
+Qed.
+
+Lemma greach_no_timeout_ok s : greach (fun _ => tag_no_timeout) s -> greach tag_ok s /\ no_stale s.
+Proof.
+  induction 1 as [|s t s' Hr [IH1 IH2] Hs Ht].
+  - split; [constructor|]. intros p pl Hp. destruct p; discriminate.
+  - split; [|eapply no_stale_step; eauto].
+    eapply greach_step; eauto. eapply no_stale_tag_ok; eauto.
+    apply (ia1 s). apply InvAll_reach. eapply greach_reach; eauto.
 Qed.
